@@ -79,6 +79,7 @@ type vPlan16 struct {
 	TruncStep int      `json:"truncstep"` // every n-th truncation length
 	MintEvery int      `json:"mintevery"` // every n-th ModHex case also through a minted and parsed certificate
 	Alt       int      `json:"alt"`       // pairs of (extension-rich, extension-free) certificates parsed alternately on one goroutine
+	BufReuse  int      `json:"bufreuse"`  // histories in which the caller rewrites ONE input buffer in place between calls
 	Reps      int      `json:"reps"`      // how often every shape is minted (different random contents)
 	NRandMH   int      `json:"nrandmh"`   // direction B: random serial-extension values
 	Raw       []string `json:"raw"`       // replay: inputs (hex) to push through parser + extractor
@@ -474,6 +475,7 @@ type vStats16 struct {
 	ModHex   int            `json:"modhex"`
 	Minted   int            `json:"modhex_minted"`
 	Alt      int            `json:"alt"`
+	BufReuse int            `json:"bufreuse"`
 	Mut      int            `json:"mut"`
 	MutBoth  int            `json:"mut_both_parsed"`
 	MutY     int            `json:"mut_lenient_parsed"`
@@ -808,6 +810,7 @@ func TestVerifAttest16(t *testing.T) {
 		x.parseCases(all16, pidx, rep)
 	}
 	x.alternate(all16, pidx, plan.Alt)
+	x.bufferReuse(all16, pidx, plan.BufReuse)
 	for ci, c := range all16 {
 		switch c.Op {
 		case "pem":
@@ -930,5 +933,96 @@ func (x *vRun16) randomSerials(n int) {
 		e.Res = modHexObs(&x509.Certificate{Extensions: []pkix.Extension{{Id: oidSerial, Value: val}}})
 		x.st.ModHex++
 		x.emit(fmt.Sprintf("hr%d", i), e)
+	}
+}
+
+// observeBuf parses in (a slice of a buffer the caller keeps rewriting) with the lenient parser and judges it against
+// crypto/x509's view of a private COPY of the current content - never against anything the parser under test returned.
+func (x *vRun16) observeBuf(tid string, c vCase16, in []byte, wellFormed bool) {
+	cur := append([]byte{}, in...)
+	if !wellFormed {
+		x.raw(tid, c.Kt+"/"+c.Sa, "buffer_reused", in)
+		return
+	}
+	e := &vE16{vCase16: c, Hist: "buffer_reused", Src: "A-buffer", Res: newRes16()}
+	y, _, pan := parseBoth(in)
+	ref, err := x509.ParseCertificate(cur)
+	e.Res.Pan, e.Res.Yok, e.Res.Sok = pan, y != nil, err == nil
+	if pan {
+		e.Der = hex.EncodeToString(cur)
+	}
+	x.st.BufReuse++
+	if y != nil && ref != nil {
+		e.Res.Eq = compare(y, ref, cur, nil, nil)
+	}
+	x.emit(tid, e)
+	if y != nil && ref != nil {
+		if n, val := serialExt(ref); n <= 1 {
+			mc := vCase16{P: "C16", Op: "modhex", Kt: c.Kt, Sa: c.Sa, Exts: c.Exts, Tail: "clean", Lead: "none", Trail: "none", Present: n == 1, Val: val}
+			x.st.ModHex++
+			x.emit(tid+"-mh", &vE16{vCase16: mc, Hist: "buffer_reused", Src: "A-buffer", Res: modHexObs(y)})
+		}
+	}
+}
+
+// bufferReuse: the caller reads every certificate into the SAME buffer (as a server reusing a read buffer does): a shape,
+// then in place an encoding of equal length that differs in serial number and subject, then a certificate of another
+// length, then the first one again, then a corrupted encoding.  The result of a call must describe the bytes it was given.
+func (x *vRun16) bufferReuse(cases []vCase16, idx []int, n int) {
+	var ok []int
+	for _, ci := range idx {
+		if cases[ci].Tail == "clean" && cases[ci].Kt != "rsa-nonull" {
+			ok = append(ok, ci)
+		}
+	}
+	if len(ok) == 0 {
+		return
+	}
+	r := verifh.NewRand("attest16-buf", 0)
+	buf := make([]byte, 8192)
+	for i := 0; i < n; i++ {
+		ci := ok[r.Intn(len(ok))]
+		c := cases[ci]
+		m := *x.m
+		m.r = verifh.NewRand("attest16-bufshape", int64(i))
+		a := m.mint(c, nil).der
+		ref, err := x509.ParseCertificate(a)
+		if err != nil {
+			panic(err)
+		}
+		// an encoding of the same length: another serial number (an inner octet) and another subject
+		b := append([]byte{}, a...)
+		sb := ref.SerialNumber.Bytes()
+		at := bytes.Index(a, sb)
+		if len(sb) < 3 || at < 0 || at > 40 {
+			continue
+		}
+		b[at+1+r.Intn(len(sb)-1)] ^= byte(1 + r.Intn(255))
+		if cn := bytes.Index(a, []byte("YubiKey PIV Attestation 9")); cn >= 0 {
+			b[cn+len("YubiKey PIV Attestation 9")] = 'f'
+		}
+		rb, err := x509.ParseCertificate(append([]byte{}, b...))
+		if err != nil || rb.SerialNumber.Cmp(ref.SerialNumber) == 0 {
+			panic(fmt.Sprintf("harness: the rewritten encoding is not a well-formed certificate with another serial number: %v", err))
+		}
+		oc := cases[ok[r.Intn(len(ok))]]
+		other := m.mint(oc, nil).der
+		tid := fmt.Sprintf("b%d", i)
+		in := buf[:len(a)]
+		copy(in, a)
+		x.observeBuf(tid+"-1", c, in, true)
+		copy(in, b) // rewritten in place, same length
+		x.observeBuf(tid+"-2", c, in, true)
+		in2 := buf[:len(other)]
+		copy(in2, other) // another certificate, usually another length
+		x.observeBuf(tid+"-3", oc, in2, true)
+		in = buf[:len(a)]
+		copy(in, a) // the first one again
+		x.observeBuf(tid+"-4", c, in, true)
+		copy(in, b)
+		in[1+r.Intn(3)] ^= 0x40 // and a broken outer length / tag: arbitrary bytes now
+		x.observeBuf(tid+"-5", c, in, false)
+		copy(in, b)
+		x.observeBuf(tid+"-6", c, in, true)
 	}
 }
